@@ -344,11 +344,12 @@ def fixture_files():
     return fs
 
 
-def fixtures(ctx, prefixes, nrays, nwalks, nprobes, maxpar=8, nshards=6):
-    """Straight rays + random protocol walks + safety probes on the bundled fixtures.
-    nrays/nwalks/nprobes are TOTALS, spread over the fixtures.  Returns totals dict."""
+def fixtures(ctx, prefixes, nrays, nwalks, nprobes, nturns=0, maxpar=8, nshards=6, extra_files=()):
+    """Straight rays + random protocol walks + safety probes + boundary-turn histories on the bundled
+    fixtures (and extra geometry files, e.g. generated curved worlds).  nrays/nwalks/nprobes/nturns are
+    TOTALS, spread over the files.  Returns totals dict."""
     vlib.build(["vnav"])
-    fs = [] if skip("fixtures") else fixture_files()
+    fs = [] if skip("fixtures") else fixture_files() + list(extra_files)
     only = [x for x in os.environ.get("VERIF_NAV_FIXTURES", "").split(",") if x]
     if only:
         fs = [f for f in fs if os.path.basename(f).replace(".org.json", "") in only]
@@ -369,11 +370,15 @@ def fixtures(ctx, prefixes, nrays, nwalks, nprobes, maxpar=8, nshards=6):
     n = max(1, len(usable))
     per = lambda tot: max(1, (tot + n - 1) // n) if tot else 0
     boost = {}
+    tboost = {}
     jobs = []
     for i, f in enumerate(usable):
         # the feature of finding F-NAV-2 (a daughter held by a volume whose logic is a union) gets 8x the
         # share so that the named deviation is exercised, not just tolerated
-        boost[f] = 8 if _union_boundary_feature(json.load(open(f))) else 1
+        jf = json.load(open(f))
+        boost[f] = 8 if _union_boundary_feature(jf) else 1
+        # curved surfaces inside a daughter universe: where set_dir's normal depends on the LOCAL position
+        tboost[f] = 6 if _curved_daughter_feature(jf) else 1
         # the two geocel/orange duplicates get different seeds
         base = "%02d_%s" % (i, os.path.basename(f).replace(".org.json", ""))
         jobs.append((f, base, ctx.path(base + ".raw.ndjson"), ctx.path(base + ".ann.ndjson")))
@@ -384,7 +389,7 @@ def fixtures(ctx, prefixes, nrays, nwalks, nprobes, maxpar=8, nshards=6):
         with open(focus, "w") as fh:
             json.dump(_focus_boxes(json.load(open(f))), fh)
         r = _run_vnav(["fixture", f, ctx.seed + 17 * (jobs.index(job) + 1), boost[f] * per(nrays), boost[f] * per(nwalks),
-                       per(nprobes), raw, focus], 1200)
+                       per(nprobes), tboost[f] * per(nturns), raw, focus], 1200)
         if r.returncode != 0:
             return ("harness", r.returncode, (r.stderr or "")[-1500:])
         a = subprocess.run([VT_PY, os.path.join(vlib.ROOT, "tools", "navfacts.py"), f, raw, ann],
@@ -397,7 +402,7 @@ def fixtures(ctx, prefixes, nrays, nwalks, nprobes, maxpar=8, nshards=6):
     with cf.ThreadPoolExecutor(max_workers=maxpar) as ex:
         outs = list(ex.map(run, jobs))
     good = []
-    tot = {"fixtures": 0, "records": 0, "oracle_queries": 0, "discarded": {}, "facts": {"T": 0, "F": 0, "U": 0},
+    tot = {"fixtures": 0, "records": 0, "oracle_queries": 0, "discarded": {}, "normals": {}, "facts": {"T": 0, "F": 0, "U": 0},
            "skipped": skipped, "stat": {}, "dev": {}, "other_clauses": set()}
     for job, (kind, rc, info) in zip(jobs, outs):
         f, base, raw, ann = job
@@ -424,6 +429,8 @@ def fixtures(ctx, prefixes, nrays, nwalks, nprobes, maxpar=8, nshards=6):
             tot["discarded"][k] = tot["discarded"].get(k, 0) + v
         for k, v in info["facts"].items():
             tot["facts"][k] = tot["facts"].get(k, 0) + v
+        for k, v in info.get("normals", {}).items():
+            tot["normals"][k] = tot["normals"].get(k, 0) + v
     # shards: concatenated annotated traces, remember the record ranges
     groups = vlib.shards(good, nshards) if good else []
     tj, ranges = [], []
@@ -544,6 +551,15 @@ def _fixture_feature(raw, rel):
     while k > 0 and rr[k].get("e") != "Init":
         k -= 1
     return classify(rr[k:rel])
+
+
+def _curved_daughter_feature(j):
+    """Some universe other than the global one has a curved surface (anything but a plane)."""
+    for u in j.get("universes", [])[1:]:
+        sf = u.get("surfaces")
+        if isinstance(sf, dict) and any(t not in ("px", "py", "pz", "p") for t in sf.get("types", [])):
+            return True
+    return False
 
 
 def _union_boundary_feature(j):
